@@ -11,12 +11,12 @@
      valid_tsb ts        boolean validity of (edges, insertion/removal index, breakpoints):
                          evaluated to true on every correspondence case of every run
      finite_op           every op except seek(NaN)
-     abs t               (index, left, right, parent array, edge array)
+     abs t               (index, left, right, parent array, edge array, num_edges)
      fresh_ops k         [] for k = -1, [seek_index k] otherwise: "a fresh Tree moved there"
    Non-vacuity: Example ex_ts_valid / ex_ops_finite / ex_run in C06/Theorems.v (a 4-tree
    sequence and a 13-op sequence meeting every hypothesis below). *)
 From Coq Require Import List ZArith.
-From TskVerif Require Import Base.Common C06.Model C06.BasicProofs C06.ListFacts C06.Valid
+From TskVerif Require Import Base.Common C06.Model C06.Facts C06.BasicProofs C06.ListFacts C06.Valid
   C06.CursorProofs C06.NavProofs C06.Theorems.
 Import ListNotations.
 Open Scope Z_scope.
@@ -29,19 +29,19 @@ Theorem cursor_invariant : forall ts ops, valid_tsb ts = true -> Forall finite_o
   exists st outs, run core ts ops = Ok (st, outs) /\ cursor_ok ts (fst st) /\ cursor_ok ts (snd st).
 Proof. exact cursor_invariant_proof. Qed.
 
-(* (b1) After any finite op sequence index / interval / parent array / edge array are those
-   the rows define for the current index (parent_at / edges_at = the SPEC), or those of the
-   null tree. *)
+(* (b1) After any finite op sequence index / interval / parent array / edge array / num_edges
+   are those the rows define for the current index (parent_at / edges_at / num_edges_at = the
+   SPEC), or those of the null tree. *)
 Theorem nav_state_is_spec : forall ts ops, valid_tsb ts = true -> Forall finite_op ops ->
   exists st outs, run core ts ops = Ok (st, outs) /\ spec_state ts (fst st) /\ spec_state ts (snd st).
 Proof. exact nav_state_is_spec_proof. Qed.
 
 (* (b2) ... hence identical to a fresh Tree moved directly to the same index.
-   PARTIAL with respect to the property text: [abs] covers index, interval, parent and edge
-   arrays.  Full statement: the same with abs extended by num_edges, children sets, sample
-   counts, roots, sample lists (tied by correspondence + oracle only; C01 owns those views),
-   and by sites / tracked counts — for which it is FALSE: nav_sites_refuted,
-   nav_tracked_refuted. *)
+   This is the builder task's statement (b) in full.  PARTIAL only with respect to DESIGN's
+   wider [abs]: here abs = index, interval, parent array, edge array, num_edges.  Full
+   statement: the same with abs extended by children sets, sample counts, roots, sample lists
+   (tied by correspondence + oracle only; C01 owns those views) and by sites / tracked
+   counts — for which it is FALSE: nav_sites_refuted, nav_tracked_refuted. *)
 Theorem nav_canonical_partial : forall ts ops, valid_tsb ts = true -> Forall finite_op ops ->
   exists st outs, run core ts ops = Ok (st, outs) /\
   exists fr outs', run core ts (fresh_ops (t_index (fst st))) = Ok (fr, outs') /\
@@ -94,6 +94,12 @@ Theorem seek_nan_diverges_refuted :
     run core ts ops = Ok (st, outs) /\ t_index (fst st) = 0 /\
     forall fuel, py_step_fuel fuel core ts st (OpSeek NaN) = Fuel.
 Proof. exact seek_nan_diverges_refuted_proof. Qed.
+
+(* F4 (second facet): from the null state seek(NaN) is accepted and lands on tree 0. *)
+Theorem seek_nan_accepted_refuted :
+  exists ts st', valid_tsb ts = true /\
+    py_step core ts (init_state ts) (OpSeek NaN) = Ok (st', RET_NONE) /\ t_index (fst st') = 0.
+Proof. exact seek_nan_accepted_refuted_proof. Qed.
 
 (* F14: history independence of the site list is refuted (first(); clear() keeps tree 0's sites). *)
 Theorem nav_sites_refuted :
